@@ -850,6 +850,8 @@ def from_shorthand(shorthand_string, slash=None):
         return res
     if shorthand_string in ["NC", "N.C."]:
         return []
+    if shorthand_string == "":
+        raise FormatError("Empty chord shorthand")
 
     # Shrink shorthand_string to a format recognised by chord_shorthand
     shorthand_string = shorthand_string.replace("min", "m")
@@ -891,11 +893,21 @@ def from_shorthand(shorthand_string, slash=None):
 
     # Generate slash chord
     if slash_index != -1 and rest_of_string not in ["m/M7", "6/9", "6/7"]:
-        res = shorthand_string[: len(name) + slash_index]
-        return from_shorthand(
+        res = from_shorthand(
             shorthand_string[: len(name) + slash_index],
             shorthand_string[len(name) + slash_index + 1 :],
         )
+        if slash is None:
+            return res
+        if isinstance(slash, list):
+            # This slash chord is the left hand side of a polychord
+            r = slash
+            for n in res:
+                if r == [] or n != r[-1]:
+                    r.append(n)
+            return r
+        # A slash chord can't have a second bass note
+        raise FormatError("Unknown shorthand: %s/%s" % (shorthand_string, slash))
     shorthand_start = len(name)
 
     short_chord = shorthand_string[shorthand_start:]
@@ -904,7 +916,7 @@ def from_shorthand(shorthand_string, slash=None):
         if slash != None:
             # Add slashed chords
             if isinstance(slash, six.string_types):
-                if notes.is_valid_note(slash):
+                if slash != "" and notes.is_valid_note(slash):
                     res = [slash] + res
                 else:
                     raise NoteFormatError(
@@ -915,7 +927,7 @@ def from_shorthand(shorthand_string, slash=None):
                 # Add polychords
                 r = slash
                 for n in res:
-                    if n != r[-1]:
+                    if r == [] or n != r[-1]:
                         r.append(n)
                 return r
         return res
